@@ -188,9 +188,16 @@ func DecodeHintRecord(buf []byte) ([]byte, *DataPos) {
 }
 
 func DecodeChunk(block []byte) ([]byte, ChunkType, error) {
+	// 数据损坏或被截断时, 头部或长度字段可能超出实际数据范围
+	if len(block) < chunkHeaderSize {
+		return nil, 0, ErrInvalidCRC
+	}
 	// length
 	length := binary.LittleEndian.Uint16(block[4:6])
 	start, end := chunkHeaderSize, chunkHeaderSize+uint32(length)
+	if end > uint32(len(block)) {
+		return nil, 0, ErrInvalidCRC
+	}
 	checksum := crc32.ChecksumIEEE(block[4:end])
 	savedSum := binary.LittleEndian.Uint32(block[:4])
 	if savedSum != checksum {
